@@ -46,11 +46,21 @@ func init() {
 			return simple("ok")
 		}
 		runtime.GC()
+		// churn: whatever the collection has freed is given a chance to be handed out again and overwritten, so that a
+		// tensor element the collector could not see (a string kept only in untyped memory) no longer reads back
+		var sink [][]byte
+		for i := 0; i < 1500; i++ {
+			sink = append(sink, []byte(fmt.Sprintf("churn-%d-%d-xxxxxxxx", idx, i)))
+		}
+		gcSink = len(sink)
+		runtime.GC()
 		runtime.Gosched()
 		return simple("ok")
 	}
 	generators["C19"] = genC19
 }
+
+var gcSink int
 
 // C19: long operation histories over a population of live tensors; every live tensor is dumped
 // after every step and compared with the (value-semantics) model; caller-owned slices are re-checked
